@@ -294,6 +294,12 @@ def faults():
         return ocp
     F["DT-in-ode"] = DT_in_ode
 
+    def offset_on_integrator_grid(m):
+        ocp, s = _ok(m, M=2)
+        ocp.subject_to(s["x"][0] + ocp.next(s["x"][0]) <= 3, grid="integrator")      # shifted operands exist on the control grid only
+        return ocp
+    F["shifted-operand-in-an-integrator-grid-constraint"] = offset_on_integrator_grid
+
     def der_of_control(m):
         ocp, s = _ok(m)
         ocp.subject_to(ocp.der(s["u"]) <= 1)
